@@ -16,7 +16,7 @@ Decided (structural, necessary conditions; no schedule is executed):
 import os
 
 from .. import effects
-from ..facts import VERIF, load_program, library_units, walk, children, strip_casts, CALL_KINDS
+from ..facts import REPO, VERIF, load_program, library_units, walk, children, strip_casts, CALL_KINDS
 
 
 def sync_status(prog, f, node, locks, once_lambdas):
@@ -38,6 +38,21 @@ def sync_status(prog, f, node, locks, once_lambdas):
 
 
 def check_singleton(chk, prog):
+    # R1c: the static members of the singleton (pointer, mutex) are CONSTANT-initialised.  With dynamic
+    # initialisation (a constructor that is not constexpr, e.g. unique_ptr( pointer, deleter)) the initialiser runs at
+    # some point during program start-up - an instance created before that (from the constructor of another
+    # namespace-scope object, or by a thread it started) is overwritten with the initial value: the object is
+    # constructed a second time and early callers hold another object than late ones
+    n_static = 0
+    for (q, f_, l_), v in sorted(prog.vars.items()):
+        if not q.startswith('celma::common::Singleton<') or v.get('kind') != 'static_member' or not v.get('isdef'):
+            continue
+        n_static += 1
+        chk.check(bool(v.get('constinit')), 'R1c', q, 'the static member %s of the singleton is constant-initialised'
+                  % v.get('name'), '%s:%s' % (os.path.relpath(v.get('file', ''), REPO) if v.get('file', '').startswith(REPO) else v.get('file', ''), v.get('line')),
+                  'type %s is initialised dynamically: an instance created earlier during start-up is overwritten'
+                  % v.get('t'))
+    chk.require(n_static >= 2, 'static members of Singleton<> instantiations: %d' % n_static)
     fns = [f for f in prog.functions if f.classq == 'celma::common::Singleton'
            and f.short in ('instance', 'reset')]
     chk.require(fns, 'no Singleton<T>::instance/reset instantiation found')
@@ -299,6 +314,7 @@ def run(chk):
                        'order, then fields in declaration order)']
     chk.rule('R1a', 'every access to the singleton pointer is synchronised', 4)
     chk.rule('R1b', 'exactly one construction site, null-tested under the lock', 2)
+    chk.rule('R1c', 'the static members of the singleton are constant-initialised', 2)
     chk.rule('R2a', 'thread-starting sub-object initialised after the captured flag', 2)
     chk.rule('R2b', 'flag is std::atomic', 2)
     chk.rule('R2c', 'flag set/cleared around the user function on every normal path', 2)
